@@ -25,7 +25,7 @@ ASSUMPTIONS = [
     "reference cdfs are the documented formulas (vp/oracles/formulas.py); the von Mises cdf reference is a 4000-point cumulative Gauss-Legendre table of the documented pdf, compared modulo 2 pi",
     "statistical comparisons use distribution-free DKW/Hoeffding bounds with error probability 1e-12 per comparison; draws are seeded so a run is deterministic",
     "sample sizes up to 2e5 (quick) / 1e6 (thorough)",
-    "'bit-for-bit' reproduction is judged at rtol 1e-14: numpy's vectorised exp/log/pow kernels round the last bit differently depending on buffer alignment, so two identical calls can differ by 1 ulp in a few entries (observed on this platform); a different random stream differs in every digit",
+    "'bit-for-bit' reproduction is judged at rtol 1e-9 (plus 1e-9 of the sample's magnitude): numpy's vectorised exp/log/pow kernels round the last bit differently depending on buffer alignment, so two identical calls can differ by 1 ulp in a few entries, which the inverse cdf of a dependent variable amplifies to ~1e-14 (observed on this platform); a different random stream differs in every digit",
 ]
 
 _GLX, _GLW = np.polynomial.legendre.leggauss(8)
@@ -76,7 +76,14 @@ def same_draws(a, b):
     """identical up to the last-bit differences numpy's SIMD kernels (exp/log/pow) show between two identical
     calls depending on buffer alignment; a different random stream differs in every digit"""
     a, b = np.asarray(a, dtype=float), np.asarray(b, dtype=float)
-    return a.shape == b.shape and bool(np.allclose(a, b, rtol=1e-14, atol=0, equal_nan=True))
+    if a.shape != b.shape:
+        return False
+    # last-bit differences of a conditioning value are amplified by the inverse cdf of the dependent variable
+    # (observed: 1e-14 relative in a third variable after two conditional levels), hence 1e-9 and a floor
+    # relative to the magnitude of the sample for values that cancel to ~0
+    fin = np.abs(a[np.isfinite(a)])
+    floor = 1e-9 * float(fin.max()) if fin.size else 0.0
+    return bool(np.allclose(a, b, rtol=1e-9, atol=floor, equal_nan=True))
 
 
 def seeding_checks(ctx, tag, draw, seed, other_seed, n):
